@@ -524,6 +524,17 @@ func (v *Value) EqualValueTo(other *Value) bool {
 	if v.IsInteger() && other.IsInteger() {
 		return v.Integer() == other.Integer()
 	}
+	// the same holds for the other scalars: a float32, a named string type or
+	// a *string is never == to a float64 or string literal as an interface
+	if v.IsFloat() && other.IsFloat() {
+		return v.Float() == other.Float()
+	}
+	if v.IsString() && other.IsString() {
+		return v.getResolvedValue().String() == other.getResolvedValue().String()
+	}
+	if v.IsBool() && other.IsBool() {
+		return v.Bool() == other.Bool()
+	}
 	if v.IsTime() && other.IsTime() {
 		return v.Time().Equal(other.Time())
 	}
